@@ -51,7 +51,7 @@ PYAGREE = {
     'C20': ['AddressFns', 'SockOpts'],
 }
 # leaves that are finished and committed
-PYAGREE_READY = {'LayerRx', 'LayerSend', 'LayerTxHelpers', 'LayerQueues', 'Exec2Bridge', 'SockOpts', 'AddressFns', 'AddressValidate', 'AddressInit', 'Pdu', 'MiscFd', 'MiscFc', 'MiscTimer'}
+PYAGREE_READY = {'LayerTx', 'LayerRx', 'LayerSend', 'LayerTxHelpers', 'LayerQueues', 'Exec2Bridge', 'SockOpts', 'AddressFns', 'AddressValidate', 'AddressInit', 'Pdu', 'MiscFd', 'MiscFc', 'MiscTimer'}
 
 
 def pyagree_theorems(mod):
